@@ -23,9 +23,12 @@ def repo_clean():
     return sh(["git", "-C", "/repo", "status", "--porcelain", "--untracked-files=no"]).stdout.strip() == ""
 
 
-def run_check(pid, tier):
+def run_check(pid, tier, profiles=None):
     t0 = time.time()
-    p = sh([os.path.join(ROOT, "check"), pid, "--tier", tier], cwd=ROOT)
+    env = dict(os.environ)
+    if profiles:
+        env["VERIF_PROFILES"] = profiles
+    p = sh([os.path.join(ROOT, "check"), pid, "--tier", tier], cwd=ROOT, env=env)
     sigs = [l.split("signature:")[1].split("(occ")[0].strip() for l in p.stdout.splitlines() if "signature:" in l]
     return {"exit": p.returncode, "signatures": sigs[:12], "wall_s": round(time.time() - t0, 1),
             "tail": p.stdout.strip().splitlines()[-1] if p.stdout.strip() else ""}
@@ -57,7 +60,11 @@ def main():
             results[name] = {"property": pid, "error": "patch does not apply"}
             continue
         try:
-            res = {"property": pid, "tier": tier, "own_check": run_check(pid, tier), "other_checks": {}}
+            # the checked profile first (one build); both profiles only if that one stays silent
+            own = run_check(pid, tier, "checked")
+            if own["exit"] != 1:
+                own = run_check(pid, tier)
+            res = {"property": pid, "tier": tier, "own_check": own, "other_checks": {}}
             if all_checks:
                 for other in ALL:
                     if other != pid:
